@@ -154,6 +154,13 @@ pub fn b_durs() -> Vec<i128> {
     for k in [2i128, 7, 27, 28, 29, 30, 31, 365, 366, 1461, 36524, 36525, 146096, 146097, 146098] {
         pos.push(k * d);
     }
+    // alias classes of the whole-day count under a narrowing cast to i32/u32
+    for sh in [31u32, 32, 33] {
+        for k in [0i128, 1, 2, -1, -2, 365, 146097] {
+            pos.push(((1i128 << sh) + k) * d);
+            pos.push(((1i128 << sh) + k) * d + 1);
+        }
+    }
     pos.extend([span - 1, span, span + 1, span / 2, i32::MAX as i128 * d, (i32::MAX as i128 + 1) * d, MAX_DELTA, MAX_DELTA - 1, MAX_DELTA - s, i64::MAX as i128, i64::MAX as i128 + 1]);
     for p in pos {
         v.push(p);
